@@ -110,8 +110,9 @@ func (p *c03) Init(tier string) {
 		{"g": "a", "h": 1.0, "v": 1.0, "w": 2.0, "m": 1.0, "V": 10.0},
 		{"g": "b", "h": 1.0, "v": 2.0, "w": 1.0, "m": "1", "V": 30.0},
 		{"g": "a", "h": 2.0, "v": nil, "w": 1.0, "m": nil, "V": 20.0},
-		{"g": nil, "h": 2.0, "v": 2.0, "w": nil, "m": "<nil>", "V": nil},
-		{"g": "b", "h": 2.0, "v": 1.0, "w": 2.0, "m": true, "V": 50.0},
+		{"g": nil, "h": 2.0, "v": -2.0, "w": nil, "m": "<nil>", "V": nil},
+		// a member whose aggregate inputs are all negative or zero
+		{"g": "b", "h": 2.0, "v": -1.0, "w": 0.0, "m": true, "V": -50.0},
 		{"g": nil, "h": 1.0, "v": nil, "w": 1.0, "m": "true", "V": 40.0},
 	}
 	maxRows := 3
